@@ -47,10 +47,11 @@ type Schedule struct {
 	// day rule (a day must satisfy both day fields if either is unrestricted,
 	// and either of them if both are restricted)?
 	//   Yes         - the field contains a bare '*' or '?'
-	//   No          - it does not, and its set is a strict subset of the range
-	//   Unspecified - no bare star but the set is the whole range (e.g. "*/1",
-	//                 "1-31"): the documentation does not say whether that
-	//                 counts as restricted, so nothing is claimed.
+	//   No          - it does not (it is "restricted"), whatever its value set:
+	//                 "1-31", "sun-sat", "0,1,2,3,4,5,6" are restricted
+	//   Unspecified - no bare star, but a "*/S" term and the whole range as
+	//                 value set ("*/1"): the documentation is ambiguous there
+	//                 and nothing is claimed.
 	DomStar, DowStar Tri
 
 	Zone string // IANA name given by a TZ=/CRON_TZ= prefix; "" = none
@@ -320,7 +321,7 @@ func EveryDelay(d time.Duration) time.Duration {
 // parseField: a comma-separated list of terms.
 func parseField(f string, k fieldKind) (set uint64, star Tri, v Verdict, why string) {
 	v = Accept
-	bare := false
+	bare, starStep := false, false
 	start := 0
 	for i := 0; i <= len(f); i++ {
 		if i < len(f) && f[i] != ',' {
@@ -340,14 +341,25 @@ func parseField(f string, k fieldKind) (set uint64, star Tri, v Verdict, why str
 		}
 		set |= s
 		bare = bare || isBare
+		if len(term) > 1 && term[0] == '*' && term[1] == '/' {
+			starStep = true
+		}
 	}
 	if v != Accept {
 		return 0, No, v, why
 	}
+	// "Restricted" (the either-day rule applies when BOTH day fields are) means
+	// written without '*' / '?': doc.go defers to the Wikipedia rule "restricted
+	// (not contain '*')". A field spelled as ranges / lists / names is therefore
+	// restricted even when its values add up to the whole range ("1-31",
+	// "sun-sat", "0,1,2,3,4,5,6"). "*/S" contains a star but doc.go also calls
+	// it equivalent to "first-last/S": for a strict subset it is taken as
+	// restricted (both the set reading and the equivalence say so); for the
+	// whole range ("*/1") the two readings disagree and nothing is claimed.
 	switch {
 	case bare:
 		star = Yes
-	case set == full(k):
+	case set == full(k) && starStep:
 		star = Unspecified
 	default:
 		star = No
